@@ -113,6 +113,13 @@ def exec_case(arg):
                 obj.update(other_fd(T, [(km[k], v) for k in o["ks"]]))
             elif op == "ior_fd":
                 obj = operator.ior(obj, other_fd(T, [(km[k], v) for k in o["ks"]]))
+            elif op in ("construct_mixed", "update_mixed"):
+                items = [(km[k], v) for k in o["ks"]]
+                h = (len(items) + 1) // 2 if len(items) != 1 else 0  # a single key goes to the keywords
+                if op == "construct_mixed":
+                    obj = T(dict(items[:h]), **dict(items[h:]))
+                else:
+                    obj.update(dict(items[:h]), **dict(items[h:]))
             elif op == "construct":
                 items = [(km[k], v) for k in o["ks"]]
                 form = len(hist) % 3
@@ -212,7 +219,7 @@ def record_case(arg):
     ev = [{"tid": tid, "ev": "begin", "type": tname, "decl": names}]
     obj = T()
     for _ in range(nops):
-        op = rnd.choice(["construct", "construct_fd", "setitem", "setitem", "setdefault", "update_dict", "update_pairs", "update_kwargs", "update_fd", "ior", "ior", "ior_fd", "copy", "pickle"])
+        op = rnd.choice(["construct", "construct_fd", "construct_mixed", "update_mixed", "setitem", "setitem", "setdefault", "update_dict", "update_pairs", "update_kwargs", "update_fd", "ior", "ior", "ior_fd", "copy", "pickle"])
         v = rnd.randrange(3)
         o = {"op": op, "v": v}
         if op in ("setitem", "setdefault"):
@@ -229,6 +236,13 @@ def record_case(arg):
                 obj.update(other_fd(T, [(k, v) for k in o["ks"]]))
             elif op == "ior_fd":
                 obj = operator.ior(obj, other_fd(T, [(k, v) for k in o["ks"]]))
+            elif op in ("construct_mixed", "update_mixed"):
+                items = [(k, v) for k in o["ks"]]
+                h = (len(items) + 1) // 2 if len(items) != 1 else 0
+                if op == "construct_mixed":
+                    obj = T(dict(items[:h]), **dict(items[h:]))
+                else:
+                    obj.update(dict(items[:h]), **dict(items[h:]))
             elif op == "construct":
                 items = [(k, v) for k in o["ks"]]
                 obj = rnd.choice([lambda: T(dict(items)), lambda: T(items), lambda: T(**dict(items))])()
